@@ -516,6 +516,23 @@ func (env *Env) elabCall(n ECall) (string, SType, error) {
 			st = SType{T: ast.Elem}
 		}
 		return r, st, nil
+	case "upd": // upd(a, i, v): raw SMT array a with a[i] := v
+		a, ast, err := env.elab(n.Args[0])
+		if err != nil {
+			return "", tBool, err
+		}
+		i, _, err := env.elab(n.Args[1])
+		if err != nil {
+			return "", tBool, err
+		}
+		v, _, err := env.elab(n.Args[2])
+		if err != nil {
+			return "", tBool, err
+		}
+		if ast.T != nil || !strings.HasPrefix(ast.Abs, "(Array ") {
+			return "", tBool, fmt.Errorf("upd needs a raw array, got %s", ast)
+		}
+		return fmt.Sprintf("(store %s %s %s)", a, i, v), ast, nil
 	case "sel": // sel(a, i): element of a raw SMT array
 		a, ast, err := env.elab(n.Args[0])
 		if err != nil {
